@@ -405,7 +405,7 @@ var (
 func c7predeclCaptured(out string) bool {
 	for _, m := range c7rePredeclLabel.FindAllStringSubmatch(out, -1) {
 		name := m[2]
-		re := regexp.MustCompile(`(^|[^A-Za-z0-9_$#."])` + regexp.QuoteMeta(name) + `($|[^A-Za-z0-9_$?!:(]|[?!]?[^:A-Za-z0-9_$])`)
+		re := regexp.MustCompile(`(^|[^A-Za-z0-9_$#."])` + regexp.QuoteMeta(name) + `($|[^A-Za-z0-9_$?!:(])`)
 		if name == "len" || name == "close" || name == "and" || name == "or" || name == "div" || name == "mod" || name == "quo" || name == "rem" || name == "matchN" || name == "matchIf" || name == "error" {
 			re = regexp.MustCompile(`(^|[^A-Za-z0-9_$#."])` + regexp.QuoteMeta(name) + `\(`)
 		}
@@ -477,6 +477,9 @@ func c7classOf(pf c7profile, sub bool, path string, rt c7rt, src string) string 
 	kind := rt.kind
 	k5 := c7kind5(kind)
 	out := c7reAttr.ReplaceAllString(rt.text, "")
+	if strings.Contains(rt.text, "internal error") && strings.Contains(rt.text, "refers to field against which it would be matched") {
+		return "pattern-label-refers-to-sibling-field-of-the-same-name:internal-error"
+	}
 	// 1. specific signatures
 	if kind == "noparse" && sub && c7reAliasTop.MatchString(out) {
 		return "subvalue:value-alias-printed-at-file-level"
@@ -487,8 +490,9 @@ func c7classOf(pf c7profile, sub bool, path string, rt c7rt, src string) string 
 	if kind == "noparse" && c7reKeywordTop.MatchString(out) {
 		return "keyword-label-import-or-package-unquoted-at-file-level"
 	}
-	if c7predeclCaptured(out) || (k5 == "internal-error" && strings.Contains(rt.detail, "refers to field against which it would be matched") && c7reQuotedPredecl.MatchString(src)) {
-		return "unquoted-label-shadows-predeclared-identifier"
+	if k5 == "differs" && sub && !strings.HasPrefix(rt.canonA, "{") && c7closedByDefinitionOnly(rt.canonA, rt.canonB) {
+		// only for values that are not structs themselves (Profile.Def wraps structs in _#def)
+		return "subvalue:closedness-lost-on-non-struct-value-inside-definition"
 	}
 	if (strings.Contains(out, "] & {}") || strings.Contains(out, ") & {}")) && c7reLet.MatchString(out) && k5 != "unresolved" && k5 != "noparse" {
 		return "non-struct-value-holding-let-unified-with-empty-struct"
@@ -504,10 +508,6 @@ func c7classOf(pf c7profile, sub bool, path string, rt c7rt, src string) string 
 	}
 	if strings.Contains(out, "_#def") {
 		return "definition-wrapper-_#def-changes-or-breaks-the-value"
-	}
-	if k5 == "differs" && sub && !strings.HasPrefix(rt.canonA, "{") && c7closedByDefinitionOnly(rt.canonA, rt.canonB) {
-		// only for values that are not structs themselves (Profile.Def wraps structs in _#def)
-		return "subvalue:closedness-lost-on-non-struct-value-inside-definition"
 	}
 	if m := c7reRefName.FindStringSubmatch(rt.detail); m != nil && k5 == "unresolved" {
 		name := m[1]
@@ -541,6 +541,12 @@ func c7classOf(pf c7profile, sub bool, path string, rt c7rt, src string) string 
 	}
 	if k5 == "differs" && (strings.Contains(src, "& {}") || strings.Contains(src, "{} &")) && !strings.Contains(out, "& {}") && !strings.Contains(out, "{} &") {
 		return "empty-struct-conjunct-dropped"
+	}
+	if k5 == "internal-error" && strings.Contains(rt.detail, "refers to field against which it would be matched") {
+		return "pattern-label-refers-to-sibling-field-of-the-same-name:internal-error"
+	}
+	if c7predeclCaptured(out) {
+		return "unquoted-label-shadows-predeclared-identifier"
 	}
 	// 2. risk features of the program
 	feat := ""
